@@ -26,13 +26,16 @@ import (
 //         N1   same, the remote sends its version and closes before its verack
 //         N3   same, the remote sends version and verack and closes right after
 //         N2   same, the handshake completes and the connection stays up
+//         N4   same, but the remote sends its version TWICE, then its verack, and keeps the connection
+//              open (a second version is a protocol violation: the peer has to drop the connection)
+//         N5   same, the remote sends its version twice and closes
 //         F    the oldest blocked GetNewAddress call gets a fresh address and its dial is refused
 //         X<k> the remote closes the (k mod live)-th oldest live connection
 // After an event the harness waits (bounded) for the reaction the system owes: a replacement request
 // (a new GetNewAddress call) when a connection died or a dial failed, one more connected peer for N2.
 //
 // observable: "<tag>:o<open connections>/w<blocked GetNewAddress calls>/c<server.ConnectedCount()>
-// /n<Dial calls>" per event, preceded by "s:" (after Start) and followed by "e:" (after a settling
+// /n<Dial calls>/g<sum of server.OutboundGroupCount over the groups dialled>" per event, preceded by "s:" (after Start) and followed by "e:" (after a settling
 // period).  tag: the event's first letter, "-" nothing to apply it to, "!" reaction missing.
 
 type c18WrConn struct {
@@ -157,9 +160,15 @@ func c18RunWr(head []string, evs []string, st *Stack) (obs string) {
 				return nil, errors.New("connection refused")
 			}
 			ta := a.(*net.TCPAddr)
-			c := &c18WrConn{f: f, closed: make(chan struct{}), raddr: ta, live: pl.stage == 2}
-			f.nonce++
-			data, err := f.w.RemoteHandshake(ta.IP, ta.Port, f.nonce, pl.stage >= 1, pl.stage >= 2)
+			c := &c18WrConn{f: f, closed: make(chan struct{}), raddr: ta, live: pl.stage == 2 || pl.stage == 4}
+			f.nonce += 100
+			var data []byte
+			var err error
+			if pl.stage >= 4 {
+				data, err = f.w.RemoteHandshakeN(ta.IP, ta.Port, f.nonce, 2, pl.stage == 4)
+			} else {
+				data, err = f.w.RemoteHandshake(ta.IP, ta.Port, f.nonce, pl.stage >= 1, pl.stage >= 2)
+			}
 			if err != nil {
 				return nil, err
 			}
@@ -189,6 +198,7 @@ func c18RunWr(head []string, evs []string, st *Stack) (obs string) {
 	}
 	digest := func() string {
 		cc := w.ConnectedCount(2 * time.Second)
+		gg := w.OutboundGroups([]string{"45.10.0.0", "45.11.0.0"}, 2*time.Second)
 		f.mu.Lock()
 		defer f.mu.Unlock()
 		open := 0
@@ -197,7 +207,7 @@ func c18RunWr(head []string, evs []string, st *Stack) (obs string) {
 				open++
 			}
 		}
-		return fmt.Sprintf("o%d/w%d/c%d/n%d", open, len(f.getWait), cc, f.dials)
+		return fmt.Sprintf("o%d/w%d/c%d/n%d/g%d", open, len(f.getWait), cc, f.dials, gg)
 	}
 	defer func() {
 		if r := recover(); r != nil {
@@ -249,7 +259,29 @@ func c18RunWr(head []string, evs []string, st *Stack) (obs string) {
 		f.mu.Unlock()
 		okw := true
 		switch {
-		case e == "N0" || e == "N1" || e == "N3" || e == "F":
+		case e == "N4":
+			c0 := w.ConnectedCount(2 * time.Second)
+			if !release(true, 4) {
+				tag = "-"
+				break
+			}
+			// either the peer drops the connection (replacement request) or it keeps it (one more
+			// connected peer): wait for whichever happens, then let the dust settle
+			deadline := time.Now().Add(bound)
+			okw = false
+			for time.Now().Before(deadline) {
+				f.mu.Lock()
+				rep := f.getCalls > g0
+				f.mu.Unlock()
+				if rep || w.ConnectedCount(2*time.Second) > c0 {
+					okw = true
+					break
+				}
+				time.Sleep(100 * time.Microsecond)
+			}
+			time.Sleep(3 * time.Millisecond)
+			tag = "N"
+		case e == "N0" || e == "N1" || e == "N3" || e == "N5" || e == "F":
 			stage := 0
 			if e[0] == 'N' {
 				stage = int(e[1] - '0')
@@ -323,7 +355,7 @@ func c18GenWr(c *Ctx, st *Stack) error {
 	}
 	// a connection closing at each handshake stage, TargetOutbound times in a row, then recovery
 	for t := 1; t <= 3; t++ {
-		for _, st0 := range []string{"N0", "N1", "N3", "F"} {
+		for _, st0 := range []string{"N0", "N1", "N3", "N4", "N5", "F"} {
 			var evs []string
 			for i := 0; i < t+1; i++ {
 				evs = append(evs, st0)
@@ -335,7 +367,7 @@ func c18GenWr(c *Ctx, st *Stack) error {
 			emit(t, evs, "stage-"+st0)
 		}
 	}
-	alpha := []string{"N0", "N1", "N2", "N2", "N3", "F", "X0", "X1"}
+	alpha := []string{"N0", "N1", "N2", "N2", "N3", "N4", "N5", "F", "X0", "X1"}
 	for i, n := 0, c.Pick(24, 600); i < n; i++ {
 		t := 1 + c.Rng.Intn(3)
 		var evs []string
